@@ -243,6 +243,12 @@ pub struct ModelSpec {
     pub vertex: [Vec<BlockSpec>; 3],
     pub index: [Vec<BlockSpec>; 3],
     pub fill: u64,
+    /// where the sections sit in the data area (each is found through its own offset field; the
+    /// block-size table keeps the customary order): 0 customary and contiguous, 1 with 128 unused
+    /// bytes in front of every section, 2 in the opposite order, 3 runtime in front of the stack,
+    /// 4 the vertex blocks of the first LOD between stack and runtime
+    #[serde(default)]
+    pub layout: u8,
 }
 
 #[derive(Clone, Debug, PartialEq, Eq, Serialize, Deserialize)]
@@ -434,22 +440,22 @@ pub fn encode_entry(kind: &EntryKind, info: &mut PackInfo) -> (EncodedFile, Expe
             let mut block_sizes: Vec<u16> = vec![];
             let mut sections: Vec<Vec<u8>> = vec![Vec::new(); 8];
             let mut flat = Vec::new();
+            let mut encoded: Vec<(usize, Enc)> = vec![];
             for (slot, blocks) in &order {
                 let content = section_bytes(blocks, m.fill, 100 + *slot as u64);
-                let start = body.pos();
-                offsets[*slot] = start as u32;
+                let mut se = Enc::new();
                 first_idx[*slot] = block_sizes.len() as u16;
                 counts[*slot] = blocks.len() as u16;
                 raw_sizes[*slot] = content.len() as u32;
                 let mut at = 0;
                 for (i, b) in blocks.iter().enumerate() {
-                    body.set_prefix(&format!("s{}b{}.", slot, i));
-                    let (stored, bt) = encode_block(&mut body, &content[at..at + b.len], b.mode);
+                    se.set_prefix(&format!("s{}b{}.", slot, i));
+                    let (stored, bt) = encode_block(&mut se, &content[at..at + b.len], b.mode);
                     note(info, b.mode, bt, b.len);
                     block_sizes.push(stored as u16);
                     at += b.len;
                 }
-                stored_sizes[*slot] = (body.pos() - start) as u32;
+                stored_sizes[*slot] = se.pos() as u32;
                 let sec_idx = match *slot {
                     0 => 0,
                     1 => 1,
@@ -458,6 +464,24 @@ pub fn encode_entry(kind: &EntryKind, info: &mut PackInfo) -> (EncodedFile, Expe
                 };
                 sections[sec_idx] = content.clone();
                 flat.extend_from_slice(&content);
+                encoded.push((*slot, se));
+            }
+            // physical placement
+            let mut phys: Vec<usize> = (0..encoded.len()).collect();
+            match m.layout {
+                2 => phys.reverse(),
+                3 => phys.swap(0, 1),
+                4 => phys.swap(1, 2),
+                _ => {}
+            }
+            let mut slots: Vec<Option<(usize, Enc)>> = encoded.into_iter().map(Some).collect();
+            for k in phys {
+                let (slot, se) = slots[k].take().unwrap();
+                if m.layout == 1 {
+                    body.zeros(128);
+                }
+                offsets[slot] = body.pos() as u32;
+                body.append(se);
             }
             // edge slots: offsets point at the following section, sizes zero
             for l in 0..3 {
